@@ -120,7 +120,9 @@ func cmdCheck(args []string) {
 	sort.Slice(ors, func(i, j int) bool { return ors[i].O.Name < ors[j].O.Name })
 	isKnown := func(name string) *KnownFinding {
 		for i := range known {
-			if known[i].Status == "open" && known[i].Obligation == name && known[i].Property == *prop {
+			// an open finding is identified by its obligation; the function may be listed under several
+			// properties (ReadFrame: C01, C15, C16) and the obligation is reported under each of them
+			if known[i].Status == "open" && known[i].Obligation == name {
 				return &known[i]
 			}
 		}
